@@ -5,24 +5,31 @@ import common as C
 import kincorr
 
 ID = "C02"
-COQ_TARGETS = ["Gen/Inverse.vo", "Exec/Finish.vo", "Properties/C02.vo"]
-THEOREMS = ["C02_twin_in_table", "C02_twin_in_table_def", "C02_fk_twin", "C02_twin_distinct", "C02_kernel_sound"]
+COQ_TARGETS = ["Gen/Inverse.vo", "Exec/Finish.vo", "Proofs/CompleteK.vo", "Properties/C02.vo"]
+THEOREMS = ["C02_twin_in_table", "C02_twin_in_table_def", "C02_fk_twin", "C02_twin_distinct", "C02_kernel_sound",
+            "C02_rows_eq", "C02_table_complete", "C02_inverse_complete", "C02_complete_nonvacuous"]
 LEVEL_TEXT = ("Coq theorems about the closed-form branch table of inverse_intern, RE-TRANSLATED from the source on every run (60+ lets, acos/"
               "atan2/sqrt, with the finiteness of every entry): branches 4..7 are entry by entry the wrist-flipped twins of branches 0..3 with "
-              "the same finiteness; the twin reaches exactly the same pose in the reference link chain (so both or neither pass the FK "
+              "the same finiteness; COMPLETENESS: for every geometry with a real forearm and upper arm, every sign/offset convention "
+              "and every joint vector whose model angles are away from the shoulder, elbow/reach and wrist singularities, one of the "
+              "eight rows of the generated table equals the configuration (same sine and cosine entry by entry) with every intermediate "
+              "value finite, the finishing glue lets it through and plain inverse returns the joint vector up to whole turns when it "
+              "is within the limits (C02_table_complete, C02_inverse_complete; the generated table is by conversion the hand-written "
+              "closed-form expressions, C02_rows_eq); the twin reaches exactly the same pose in the reference link chain (so both or neither pass the FK "
               "cross-check: the answer set is closed under the twin); twins differ modulo whole turns unless sin(theta5) = 0 (no duplicates "
               "between a branch and its twin); every row the kernel returns passed the FK cross-check and is normalised (kernel contract of C01)")
 LEVEL_NOTE = ("translator tie for the branch table (validated by Interval-certified spot checks of generated R expressions against the raw table "
               "the implementation traced); hand-written finishing glue (offsets/signs, finiteness, wrap, FK check) tied by vm_compute "
-              "correspondence on traced tables and recorded FK verdicts.  COMPLETENESS proper (the originating configuration is among the "
-              "answers; equal set size for every member) is NOT proved: it is decided by the oracle search on non-singular configurations "
+              "correspondence on traced tables and recorded FK verdicts.  Completeness is proved over R (exact arithmetic: the FK "
+              "cross-check of the originating row compares a pose with itself); that the f64 rows pass the 1e-6 cross-check, and the "
+              "equal size of the answer set for the pose of each member, are decided by the oracle search on non-singular configurations "
               "with independent margins")
 TECHNIQUE = "Coq proof about a generated kernel model (reflexivity/ring/trig identities) + Interval spot checks + vm_compute glue correspondence + oracle search"
 RULE = ("random robots (b != 0, negative a1/a2, c4 = 0, all sign patterns, offsets) x random joint vectors; non-singular by independent margins "
         "(|sin q5|, elbow, shoulder, reach); non-trivial = non-singular configurations with 8 or 4 answers; distinct = distinct cases")
 EXPLANATION = LEVEL_NOTE
 ASSUMPTIONS = ["nalgebra quaternion -> rotation matrix conversion (spot tolerance 1e-5 absorbs it)"]
-PARTIAL = ["arm_complete / wrist_complete (the originating configuration is returned) and 'same size for the pose of each member': oracle only"]
+PARTIAL = ["'same size of the answer set for the pose of each member' and the f64 accuracy of the originating row: oracle only"]
 TRUSTED_EXTRA = ["coq-interval for the certified spot checks"]
 
 
